@@ -36,9 +36,11 @@ func (c08) Rule() string {
 		"Case kinds (index space = concatenation of the kinds table, fixed count per tier): " +
 		"l1.exhaustive: one case per (n, edge mask) for n<=4 (thorough n<=5, each mask split into 4 blocks of id assignments), inside it every fetch-id assignment x every raw order (n=5: identity, reverse and 2 seeded raw orders); " +
 		"l1.random/l1.nested/l1.entity/l1.dup: seeded random plans up to 14 fetches (random/layered/chains/diamonds/forest/components shapes; nested = fetches hanging under response paths of other fetches, some without declared dependencies; entity = entity/batch-entity fetches on few subgraphs so that same-wave fetches merge into multi fetches; dup = exact duplicate fetches); " +
-		"l1.dupfan: directed de-duplication shapes (a fetch with 1-2 exact duplicates behind a chain of 0-3 fetches and 2-5 dependants spread over the copies, random ids and raw order). " +
-		"Every layer-1 plan is built with a FetchInfo on every fetch (planner default) AND on no fetch (plan.Configuration.DisableIncludeInfo; quick tier of l1.exhaustive: for a checkerboard half of id assignment x raw order), every other random plan additionally with a seeded mix, and post-processed under 10 option sets (waves|scheduler|serial x +-multi-fetch x +-de-duplication; every 4th random plan additionally as the response tree of a subscription plan whose root carries the trigger; a quarter of the entity plans with eagerly printed inputs) and the tree is checked: every planned fetch exactly once (as itself, as member of a merged request, or via the first fetch of its duplicate class) and every dependency completes before its dependant starts. " +
+		"l1.dupfan: directed de-duplication shapes (a fetch with 1-2 exact duplicates behind a chain of 0-3 fetches and 2-5 dependants spread over the copies, random ids and raw order); " +
+		"l1.branch: type-conditioned branches of an abstract list (2-3 concrete types, 1-2 items each) that select the same relation object o: the root delivers o for the native types, a provider fetch (optionally behind one more provider) delivers it for the others, one owner fetch per branch loads o.name - all owner fetches are the same request with DIFFERENT dependency sets, so de-duplication keeps one that has to wait for the providers of every branch - plus 0-3 readers of o.name; random ids and raw order. " +
+		"Every layer-1 plan is built with a FetchInfo on every fetch (planner default) AND on no fetch (plan.Configuration.DisableIncludeInfo; quick tier of l1.exhaustive: for a checkerboard half of id assignment x raw order), every other random plan additionally with a seeded mix (quick tier, plain and nested plans: with FetchInfo plus alternately none / mixed), and post-processed under 10 option sets (waves|scheduler|serial x +-multi-fetch x +-de-duplication; every 4th random plan additionally as the response tree of a subscription plan whose root carries the trigger; a quarter of the entity plans with eagerly printed inputs) and the tree is checked: every planned fetch exactly once (as itself, as member of a merged request, or via the first fetch of its duplicate class) and every dependency completes before its dependant starts. " +
 		"l2.*: the same plan kinds (plus errors = fetches failing in one of 8 ways: GraphQL errors with data, GraphQL errors with data:null, transport error, 502 with a non-JSON body, 503 with data:null, 500 with errors, 200 with data:null and no errors, empty body) executed by the real Resolver/Loader (alternating ResolveGraphQLResponse / ArenaResolveGraphQLResponse) with gated fake subgraphs under 3-5 option sets and a seeded FetchInfo mode (dup/dupfan plans: with FetchInfo and without): all completion orders for n<=4, per parallel group all permutations up to 4 members (seeded beyond), seeded flat priorities, burst (whole wave released at once) and ungated runs; " +
+		"l2.branch: the branch plans executed (batch entity fetches with type-conditioned fetch paths; the request content oracle demands one representation per item of every branch the request serves, each with the values its dependencies delivered; the clock oracle also applies the dependencies of the removed copies to the surviving request); " +
 		"l2.faults: one group of 2-4 mutually independent fetches of which at least two fail in different ways, optionally behind a healthy root and followed by a reader of the group, every completion order the tree allows; " +
 		"oracles: request content equals the values the dependencies delivered, arrival after merged/release of every dependency on one logical clock, each planned request at most/exactly once, response identical across completion orders (data bytes, errors as multiset of error objects). " +
 		"A layer-1 plan is non-trivial when it has >=1 dependency edge; a layer-2 case when >=1 execution really had >=2 requests pending at once and the plan has >=1 edge (faults: always when requests overlapped). Distinct = canonical labelled plan incl. its FetchInfo mode."
@@ -70,6 +72,7 @@ func (c08) RequiredCounters(string) []string {
 		"l2_plans_fetchinfo_all", "l2_plans_fetchinfo_none", "l2_plans_fetchinfo_mixed",
 		"l2_plans_removed_duplicate_with_2plus_dependants_fetchinfo_all", "l2_plans_removed_duplicate_with_2plus_dependants_fetchinfo_none",
 		// failing subgraph answers under controlled completion orders
+		"l1_plans_duplicates_with_differing_dependency_sets", "l2_plans_duplicates_with_differing_dependency_sets",
 		"l2_trees_with_differently_failing_parallel_fetches", "l2_error_multisets_compared", "l2_error_multisets_compared_2plus_errors_parallel_faults",
 	}
 	for _, m := range faultModes {
@@ -291,6 +294,10 @@ func l1PlanModes(res *fw.Result, acc *l1acc, spec *planSpec, eager bool, salt ui
 func l1Plan(res *fw.Result, acc *l1acc, spec *planSpec, eager bool) {
 	res.Count("l1_plans", 1)
 	res.Count("l1_plans_fetchinfo_"+spec.Info.String(), 1)
+	if spec.dupDepSetsDiffer() {
+		// de-duplication merges fetches whose dependency sets differ: the survivor takes them all over
+		res.Count("l1_plans_duplicates_with_differing_dependency_sets", 1)
+	}
 	if fan := spec.removedFanout(); fan >= 2 {
 		// a duplicate that de-duplication removes has >= 2 dependants to rewire
 		res.Count("l1_plans_removed_duplicate_with_2plus_dependants", 1)
@@ -422,17 +429,21 @@ func runL1Random(c *fw.Ctx, res *fw.Result, idx int, gen func(*rand.Rand) *planS
 		}
 		eager := spec.Kind == "entity" && rng.IntN(4) == 0
 		salt := rng.Uint64()
-		// every plan with FetchInfo on all fetches and on none; every other plan also mixed
+		// every plan with FetchInfo on all fetches and on none; every other plan also mixed. Plans
+		// without duplicates and without merge candidates (plain, nested): none / mixed alternate.
 		modes := []infoMode{infoAll, infoNone}
 		if i%2 == 1 {
 			modes = append(modes, infoMixed)
+		}
+		if (spec.Kind == "plain" || spec.Kind == "nested") && c.Tier != fw.Thorough {
+			modes = []infoMode{infoAll, []infoMode{infoNone, infoMixed}[i%2]}
 		}
 		l1PlanModes(res, acc, spec, eager, salt, modes...)
 		if i%4 == 3 {
 			l1SubscriptionPlan(res, spec.withInfo([]infoMode{infoAll, infoNone, infoMixed}[(i/4)%3], salt))
 		}
 	}
-	res.Sample = map[string]any{"plans": l1PlansPerCase, "first": first, "fetch_info_modes": "all,none (+mixed for every other plan)"}
+	res.Sample = map[string]any{"plans": l1PlansPerCase, "first": first, "fetch_info_modes": "all,none (+mixed for every other plan; quick tier of plain/nested plans: all + none|mixed alternating)"}
 	acc.finish(res)
 }
 
@@ -474,6 +485,9 @@ func l2Plan(c *fw.Ctx, res *fw.Result, acc *l2acc, idx int, spec *planSpec, rng 
 func l2PlanMode(c *fw.Ctx, res *fw.Result, acc *l2acc, idx int, spec *planSpec, rng *rand.Rand, p l2params) {
 	res.Count("l2_plans", 1)
 	res.Count("l2_plans_fetchinfo_"+spec.Info.String(), 1)
+	if spec.dupDepSetsDiffer() {
+		res.Count("l2_plans_duplicates_with_differing_dependency_sets", 1)
+	}
 	if spec.removedFanout() >= 2 {
 		res.Count("l2_plans_removed_duplicate_with_2plus_dependants_fetchinfo_"+spec.Info.String(), 1)
 	}
@@ -542,6 +556,7 @@ func l2PlanMode(c *fw.Ctx, res *fw.Result, acc *l2acc, idx int, spec *planSpec, 
 			acc.execCount++
 			nonce := fmt.Sprintf("x%dx%d", idx, acc.execCount)
 			env := newExecEnv(spec, tm, nonce, sch.mode != "free")
+			env.dedupeOn = o.DedupeOn
 			useArena := acc.execCount%2 == 0
 			oc := execute(resp, rt, env, sch, p.passthrough, useArena, uint64(idx)<<20|uint64(acc.execCount))
 			res.Count("l2_executions", 1)
@@ -762,7 +777,7 @@ func runL2Random(c *fw.Ctx, res *fw.Result, idx int, gen func(*rand.Rand) *planS
 // FetchInfo on every fetch AND on none (de-duplication rewires dependants either way), every third
 // one also mixed; the other kinds run under one seeded mode.
 func l2InfoModes(kind string, rng *rand.Rand) []infoMode {
-	if kind == "dup" {
+	if kind == "dup" || kind == "branch" {
 		m := []infoMode{infoAll, infoNone}
 		if rng.IntN(3) == 0 {
 			m = append(m, infoMixed)
